@@ -21,7 +21,7 @@ documents, paths, values and histories; nothing is bounded.
   trivia.
 
 SPEC definitions used (`Model/Frame.lean`): `Doc.frames`, `Doc.allFrames`, `Doc.wrappers`, `Op`,
-`run`, `Doc.Fresh`, `Doc.NoLayers`; here: `others`, `sidElsewhere`.
+`run`, `Doc.Fresh`, `Doc.NoLayers`, `hole`, `Doc.sidElsewhere`; here: `others`.
 -/
 namespace Nima.C04
 
@@ -29,16 +29,9 @@ open Node
 
 /-! ## SPEC -/
 
-/-- placeholder put into the value slot of the addressed binding when comparing the rest -/
-def hole : Node := .atom []
-
 /-- the document with the value of Binding object `b` masked: *everything* else — every other
     binding with its value, the order lists, all trivia, the layers — is still there -/
 def others (b : Nat) (d : Doc) : Doc := d.updBind b hole
-
-/-- does the AttributeSet object `sid` occur anywhere but at the target? (it does not in documents
-    built by the parser: the target object is referenced once) -/
-def sidElsewhere (sid : Nat) (d : Doc) : Bool := ({ d with target := hole } : Doc).hasSet sid
 
 /-! ## 1. Frame of a write by identity -/
 
@@ -80,12 +73,9 @@ theorem mutation_keeps_other_set (sid s : Nat) (f : Node → Node) (vs o : List 
   updSet_frame_set sid s f vs o m r h
 
 /-- A mutation of an object that occurs only at the target changes the target alone. -/
-theorem mutation_only_target (sid : Nat) (f : Node → Node) (d : Doc) (h : sidElsewhere sid d = false) :
-    d.updSet sid f = { d with target := Node.updSet sid f d.target } := by
-  have := Doc.updSet_of_not_hasSet sid f _ h
-  simp only [Doc.updSet, Doc.mk.injEq, true_and] at this
-  obtain ⟨_, h1, h2, h3, h4, h5⟩ := this
-  simp only [Doc.updSet, h1, h2, h3, h4, h5]
+theorem mutation_only_target (sid : Nat) (f : Node → Node) (d : Doc) (h : d.sidElsewhere sid = false) :
+    d.updSet sid f = { d with target := Node.updSet sid f d.target } :=
+  Nima.Doc.updSet_only_target sid f d h
 
 /-! ## 2. Successful plain edits, characterised -/
 
@@ -165,15 +155,13 @@ theorem set_fresh_frame (d : Doc) (p k : Text) (v : Node) (sid : Nat) (vs o : Li
     (hf : formatNPath currentAnchor p = .ok [k])
     (ht : d.target = .set sid vs o m r)
     (hr : findAttrpathRoot vs k = none) (hb : findBinding vs k = none)
-    (hone : sidElsewhere sid d = false) :
+    (hone : d.sidElsewhere sid = false) :
     setValue p (.one v) d =
       (.ok (), { d with
         target := .set sid (vs ++ [.bind d.next k false v [] []])
           (if o.isEmpty then o else o ++ [.bind d.next k false v [] []]) m r
-        next := d.next + 1 }) := by
-  rw [set_fresh_plain d p k v sid hnt hsp hf (by rw [ht]; rfl) (by rw [ht]; exact hr)
-    (by rw [ht]; exact hb), mutation_only_target sid _ d hone, ht]
-  simp [Node.updSet, appendBothF]
+        next := d.next + 1 }) :=
+  Nima.set_fresh_frame d p k v sid vs o m r hnt hsp hf ht hr hb hone
 
 /-- `rm k` for an existing, explicitly written binding `k`: exactly that Binding object is erased
     from `values` and (as an item of its own) from a non-empty `attrpath_order`. -/
@@ -194,14 +182,12 @@ theorem rm_frame (d : Doc) (p k : Text) (bid : Nat) (nm : Text) (ne : Bool)
     (ht : d.target = .set sid vs o m r)
     (hr : findAttrpathRoot vs k = none)
     (hb : findBinding vs k = some (.bind bid nm ne val bf af))
-    (hone : sidElsewhere sid d = false) :
+    (hone : d.sidElsewhere sid = false) :
     removeValue p d =
       (.ok (), { d with
         target := .set sid (vs.eraseP fun n => n.bindId? == some bid)
-          (if o.isEmpty then o else o.eraseP fun n => n.isBind && n.bindId? == some bid) m r }) := by
-  rw [rm_plain d p k bid nm ne val bf af sid hnt hsp hf (by rw [ht]; rfl) (by rw [ht]; exact hr)
-    (by rw [ht]; exact hb), mutation_only_target sid _ d hone, ht]
-  simp [Node.updSet, eraseBothF]
+          (if o.isEmpty then o else o.eraseP fun n => n.isBind && n.bindId? == some bid) m r }) :=
+  Nima.rm_frame d p k bid nm ne val bf af sid vs o m r hnt hsp hf ht hr hb hone
 
 /-- "erase the first item that is the Binding object `bid`" removes exactly one item, the first with
     that identity; everything before and after it stays, in order. -/
@@ -263,7 +249,7 @@ theorem rm_unreachable_partial (d : Doc) (p k : Text) (bid : Nat) (nm : Text) (n
     (ht : d.target = .set sid vs o m r)
     (hr : findAttrpathRoot vs k = none)
     (hb : findBinding vs k = some (.bind bid nm ne val bf af))
-    (hone : sidElsewhere sid d = false)
+    (hone : d.sidElsewhere sid = false)
     (hrest : ({ d with target := hole } : Doc).hasBind bid = false)
     (hvals : hasBindL bid (vs.eraseP fun n => n.bindId? == some bid) = false)
     (hord : hasBindL bid (if o.isEmpty then o else o.eraseP fun n => n.isBind && n.bindId? == some bid)
@@ -415,7 +401,7 @@ def exDoc : Doc :=
     next := 13 }
 
 example : exDoc.Fresh := by decide
-example : sidElsewhere 1 exDoc = false := by decide
+example : exDoc.sidElsewhere 1 = false := by decide
 
 /-- replace: `set a 7` -/
 example : setValue "a".toList (.one (.atom "7".toList)) exDoc =
